@@ -9,6 +9,7 @@ import DL.Lemmas.Subst
 import DL.Lemmas.LayoutGen
 import DL.Lemmas.LayoutGenAmp
 import DL.Model.GooFitProg
+import DL.Model.GooFitText
 import DL.Gen.Particles
 import DL.Gen.Models
 import DL.Gen.Grammar
@@ -273,6 +274,20 @@ def handle (x : Sexp) : Sexp :=
       | .ok a => ok (encAmpOut a)
       | .error e => encEmitErr e)
     | _, _ => bad "emit_amp"
+  | .list [.atom "emit_text", py, n, fs, pn, sa, fix, .list [.atom re, .atom reErr, .atom im, .atom imErr], spl] =>
+    let pairs (x : Sexp) : Option (List (String × String)) := x.asList.bind (·.mapM fun p => match p with
+        | .list [.atom k, .atom v] => some (k, v) | _ => none)
+    let quads (x : Sexp) : Option (List (String × String × String × String)) := x.asList.bind (·.mapM fun p => match p with
+        | .list [.atom k, .atom a, .atom b, .atom c] => some (k, a, b, c) | _ => none)
+    match py.asBool, decGNodeA n, fs.asStrs, pairs pn, pairs sa, fix.asBool, quads spl with
+    | some py, some n, some fs, some pn, some sa, some fix, some spl =>
+      (match emitAmp Gen.knownSpinFactors n fs with
+      | .ok a =>
+        let look (d : List (String × String)) (k : String) : String := (dget d k).getD k
+        let i : AmpTextIn := { tree := nodeStr (look pn) n, fix := fix, re := re, reErr := reErr, im := im, imErr := imErr, splines := spl }
+        ok (.atom (if py then ampTextPy (look sa) i a else ampTextCpp (look sa) i a))
+      | .error e => encEmitErr e)
+    | _, _, _, _, _, _, _ => bad "emit_text"
   | .list [.atom "dec_read", extra, .atom text] => match extra.asStrs with
     | some ex =>
       (match readDoc { labelChars := Gen.labelChars, models := registered Gen.knownModels ex } text with
